@@ -1,3 +1,4 @@
+#![cfg_attr(target_pointer_width = "32", allow(arithmetic_overflow))] // 2^32-sized probes exist only in the 64-bit stages
 //! C03 — sample and frame amplitude arithmetic obeys its identities, channel by channel.
 //!
 //! Sample level (14 formats): identities (offset 0, scale 0.0, scale 1.0) and the general
